@@ -11,10 +11,11 @@ def run(tier, runner):
     if tier == 'thorough':
         pts += matrix.vec_points('quick', std=11) + matrix.vec_points('quick', std=20)
     progs = matrix.programs(runner, pts)
-    ob = lifetime.obligations(progs)
+    real = matrix.real_programs(runner, tier)
+    ob = lifetime.obligations(progs + real)
     r_strong = lifetime.strong([p for p in progs if 'flavour' in p.meta and p.meta['elem'] != 'NTRtm'])
-    r_tail = lifetime.tail([p for p in progs if 'flavour' in p.meta])
-    r_tr = callgraph.throw_reach(progs)
+    r_tail = lifetime.tail([p for p in progs if 'flavour' in p.meta] + real)
+    r_tr = callgraph.throw_reach(progs + real)
     ob['HOLE'].require(4, 'functions that open slots with shift_right')
     ob['TEMP'].require(2, 'functions that build an element in a local ElemStorage')
     ob['RAWTAIL'].require(30, 'functions that construct into raw storage')
